@@ -133,22 +133,45 @@ Fixpoint mono_thr (c : cfg) (thr : N) (n : call) : bool :=
       let th := match q_time (trig_of c f) with Some t => t | None => thr end in
       (thr <=? th)%N && forallb (mono_thr c th) ks
   end.
-Definition rr_class_of (c : cfg) (f : list call) : bool :=
+Definition rr_base (c : cfg) (f : list call) : bool :=
   let l := flat_map fns_of f in
   forallb (fun n => negb (dur n =? 0)%N && forallb (fun t => negb (dur n =? t)%N) (thresholds c l))
           (flat_map calls_of f)
-  && forallb (fun k => match q_depth (trig_of c k) with None => true | Some _ => false end
-                       && negb (q_trace_on (trig_of c k)) && negb (q_trace_off (trig_of c k))) l
-  (* -C, `trace` and time= act on calls that -F/-N/-D hide at replay time but not at record time:
-     only compared when no call is hidden by -F/-N/-D *)
+  (* -C, `trace` and time= act on calls that -F/-N/-D/depth= hide at replay time but not at record time:
+     only compared when no call is hidden *)
   && (negb (caller_filter c || existsb (fun k => q_trace (trig_of c k)) l
             || existsb (fun k => match q_time (trig_of c k) with Some _ => true | None => false end) l)
-      || (forallb (fun k => match q_filter (trig_of c k) with None => true | Some _ => false end) l
+      || (forallb (fun k => match q_filter (trig_of c k) with None => true | Some _ => false end
+                            && match q_depth (trig_of c k) with None => true | Some _ => false end) l
           && forallb (fun n => Z.of_nat (height n) <=? gdepth c) f))
   && (1 <=? gdepth c).
+Definition no_sw (c : cfg) (l : list N) : bool :=
+  forallb (fun k => negb (q_trace_on (trig_of c k)) && negb (q_trace_off (trig_of c k))) l.
+(* depth= triggers agree at both times since the fix b3d28e2 (a rejected -pg entry undoes its trigger), except
+   below an -F function (filter-below-depth-trigger, known finding) and for depth=0 on -pg (the undo gives the
+   callees of the rejected function the normal budget; being repaired in /repo): compared when there is no -F at
+   all and every depth= value is positive *)
+Definition depth_ok (c : cfg) (l : list N) : bool :=
+  forallb (fun k => match q_depth (trig_of c k) with None => true | Some _ => false end) l
+  || (forallb (fun k => match q_filter (trig_of c k) with Some true => false | _ => true end) l
+      && forallb (fun k => match q_depth (trig_of c k) with Some d => 0 <? d | None => true end) l).
+Definition rr_class_of (c : cfg) (f : list call) : bool :=
+  let l := flat_map fns_of f in rr_base c f && no_sw c l && depth_ok c l.
 Definition rr_class (k : rcase) : bool := rr_class_of (rr_cfg k) (rr_forest k).
+(* trace_on / trace_off at both times: the same events in the same order (the recording made with the switch
+   has the calls at their recorded depth, the replay of the full recording at their original depth) *)
+Definition rr_class_sw (k : rcase) : bool :=
+  let c := rr_cfg k in let l := flat_map fns_of (rr_forest k) in
+  rr_base c (rr_forest k) && negb (no_sw c l)
+  && forallb (fun x => match q_depth (trig_of c x) with None => true | Some _ => false end) l
+  (* a trigger on a function that -F/-N hide fires at record time only (same family as
+     time-trigger-outside-filter): only compared without -F/-N; calls entered while the switch is off do not
+     use up -D at replay time: only without a -D hit *)
+  && forallb (fun x => match q_filter (trig_of c x) with None => true | Some _ => false end) l
+  && forallb (fun n => Z.of_nat (height n) <=? gdepth c) (rr_forest k).
 Definition ok_rr (k : rcase) : bool :=
-  negb (rr_class k) || list_eqb nd_eqb (rr_rec_replay k) (rr_opt_replay k).
+  (negb (rr_class k) || list_eqb nd_eqb (rr_rec_replay k) (rr_opt_replay k))
+  && (negb (rr_class_sw k) || list_eqb n_eqb (map nd_n (rr_rec_replay k)) (map nd_n (rr_opt_replay k))).
 
 (* ---------------------------------------------------------------- several tasks *)
 Record mcase := {
